@@ -262,6 +262,9 @@ func (r *rcv) Receive(c *actor.Context) {
 				}{"planned panic", []string{fmt.Sprint(m.ID)}}) // a value type that holds a slice: not comparable
 			case 5:
 				panic(nil)
+			case 6:
+				// a nil pointer of the engine's own error type: a panic value like any other
+				panic((*actor.InternalError)(nil))
 			}
 			panic(fmt.Sprintf("planned panic on message %d", m.ID))
 		}
